@@ -31,7 +31,7 @@ ASSUMPTIONS = [
     "client; those runs are counted as informational and not asserted",
     "BlockUploadStream.blksize is a public class attribute; the harness varies it per case",
 ]
-BUDGET = {"quick": 50, "thorough": 420}
+BUDGET = {"quick": 150, "thorough": 420}
 NODE = 2
 
 
@@ -97,6 +97,7 @@ def run_case(case) -> Outcome:
     BlockUploadStream.blksize = case.get("blksize", 127)
     exc = None
     got = None
+    early = None
     try:
         fp = node.sdo.open(index, sub, "rb", block_transfer=True, buffering=case.get("buffering", 0),
                            request_crc_support=case.get("crc_req", True))
@@ -109,11 +110,23 @@ def run_case(case) -> Outcome:
                 i = 0
                 while True:
                     k = reads[i % len(reads)]
-                    chunk = fp.read() if k is None else fp.read(k)
                     i += 1
+                    if k is not None and k < 0:
+                        buf = bytearray(-k)          # readinto() with a buffer that may be smaller than a segment
+                        nread = fp.readinto(buf)
+                        chunk = bytes(buf[:nread or 0])
+                    else:
+                        chunk = fp.read() if k is None else fp.read(k)
                     if not chunk:
                         break
                     got += chunk
+                    if k is None:
+                        # io contract: read() without a size returns everything up to the end
+                        more = fp.read()
+                        if more:
+                            early = (chunk, more)
+                            got += more
+                        break
     except Exception as e:
         exc = e
     finally:
@@ -132,6 +145,10 @@ def run_case(case) -> Outcome:
         if exc is not None:
             D.append(Discrepancy("C13/undisturbed/raises", f"{where}: {type(exc).__name__}: {exc}; "
                                                            f"server saw {srv.errors[:2]}"))
+        elif early is not None:
+            D.append(Discrepancy("C13/undisturbed/read-all-stops-early",
+                                 f"{where}: read() returned {early[0][:20].hex()}({len(early[0])}B) although "
+                                 f"{early[1][:20].hex()}({len(early[1])}B) was still to come"))
         elif bytes(got) != data:
             D.append(Discrepancy("C13/undisturbed/bytes", f"{where}: returned {bytes(got)[:20].hex()}"
                                                           f"({len(got)}B) want {data[:20].hex()}({len(data)}B)"))
@@ -181,7 +198,8 @@ def boundary_lengths():
 
 
 ROUTES = [(0, None), (0, [7]), (0, [1]), (0, [100]), (1024, None), (1024, [5]), (3, None), (7, [9]), (8192, [64]),
-          (3, [1, None]), (5, [2, 2, None]), (1024, [10, None])]
+          (3, [1, None]), (5, [2, 2, None]), (1024, [10, None]), (0, [-3, None]), (0, [-1, -9, 7]), (7, [-2, None]),
+          (0, [-6, -6, None])]
 
 
 def enum_undisturbed():
@@ -232,7 +250,9 @@ def rand_case(draw, max_len):
         case["salt"] = draw(st.integers(0, 250))
     case["buffering"] = draw(st.sampled_from([0, 0, 2, 3, 7, 64, 1024, 8192]))
     case["reads"] = draw(st.one_of(st.none(), st.lists(st.integers(1, 80), min_size=1, max_size=3),
-                                   st.lists(st.integers(1, 9), min_size=1, max_size=2).map(lambda l: l + [None])))
+                                   st.lists(st.integers(1, 9), min_size=1, max_size=2).map(lambda l: l + [None]),
+                                   st.lists(st.one_of(st.integers(-9, -1), st.integers(1, 9), st.none()),
+                                            min_size=1, max_size=4)))
     kind = draw(st.sampled_from(["none", "none", "drop", "flip", "crc", "end_n", "end_cs"]))
     if kind != "none":
         case["fault"] = {"kind": kind, "k": draw(st.integers(0, max(0, nsegs - 1))),
